@@ -12,10 +12,12 @@ import (
 //
 // The scenario of Model.Embargo on a real Conn: the local vat bootstraps the peer (import 1), calls it passing its
 // own capability 0 (c0, method "giveback"), and then follows the schedule, one letter per step:
-//   P  a pipelined call on the result of c0 (before the Return)          R  the peer's Return: result = receiverHosted(export of cap 0)
-//   A  an asynchronous direct call on the capability taken from the result (after the Return)
-//   F  the peer forwards the oldest pipelined call it has not forwarded yet back to the export
-//   D  the peer echoes the Disembargo
+//
+//	P  a pipelined call on the result of c0 (before the Return)          R  the peer's Return: result = receiverHosted(export of cap 0)
+//	A  an asynchronous direct call on the capability taken from the result (after the Return)
+//	F  the peer forwards the oldest pipelined call it has not forwarded yet back to the export
+//	D  the peer echoes the Disembargo
+//
 // Output: per step, the calls delivered to capability 0 during it, as the index of the call among the calls the
 // application made (0 = first P/A), "+"-joined; the calls released by D are sorted (their order is not defined).
 func execEmbargo(sched string) string {
@@ -25,7 +27,7 @@ func execEmbargo(sched string) string {
 		from, to int // ops[from:to]
 	}
 	var spans []span
-	calls := 0     // calls made by P / A so far: the n-th has harness call id n+1, tag 1001+n
+	calls := 0      // calls made by P / A so far: the n-th has harness call id n+1, tag 1001+n
 	var pipes []int // indices of the pipelined calls, in order
 	reflected := 0
 	for i := 0; i < len(sched); i++ {
